@@ -159,6 +159,9 @@ func (h *Session) Parse(p []byte) (frame Frame, err error) {
 	frame.DstAddr.MAC = frame.ether.Dst()
 	frame.PayloadID = PayloadEther
 	frame.offsetPayload = frame.ether.HeaderLen()
+	if frame.offsetPayload > len(p) { // 802.1Q / 802.1ad tag announced but frame shorter than the tagged header
+		return Frame{}, ErrFrameLen
+	}
 
 	// Only interested in unicast ethernet
 	if !IsUnicastMAC(frame.SrcAddr.MAC) {
